@@ -31,7 +31,7 @@ WORDS = {1: ["a", "i", "x", "é"], 2: ["ab", "we", "да", "ok"], 3: ["cat", "do
          4: ["pass", "love", "word", "тест"], 5: ["hello", "admin", "qwert"]}
 DIGITS = {1: ["1", "2", "7", "0"], 2: ["12", "99", "07", "00"], 3: ["123", "007", "321"], 4: ["1234", "2580", "0000"]}
 OTHER = {1: ["!", "#", " ", "$", "*"], 2: ["!!", "#!", "  ", "€$"], 3: ["!@#", "..."]}
-KEYB = {4: ["1qaz", "qwer", "zaq1"], 5: ["1qazx", "qwert"]}
+KEYB = {4: ["1qaz", "qwer", "zaq1", "1QAZ", "!QAZ"], 5: ["1qazx", "qwert", "QWERt"]}     # walks are stored as typed, capitals included
 YEARS = ["2019", "1984", "2001", "1999", "2020"]
 CONTEXT = ["#1", "<3", ";p", "No.1", "*0*"]
 
